@@ -323,6 +323,9 @@ func DeepHash(v reflect.Value) uint64 {
 		if depth > 12 {
 			return
 		}
+		if pp := v.Type().PkgPath(); pp == "sync" || pp == "sync/atomic" || strings.HasPrefix(pp, "verif/shim/") {
+			return // synchronisation objects embedded in data are not data
+		}
 		switch v.Kind() {
 		case reflect.Bool:
 			if v.Bool() {
